@@ -45,6 +45,10 @@ MODELS = {
 # models that must be observed (dof, rplus, rt1, rminus) on a RAGGED container: elements of different run-time dof,
 # the first one not the average (the spec derives the tag from the recorded values)
 RAGGED_MODELS = (13, 15, 16, 17, 30, 31, 32)
+# run-time-sized containers that must be observed with a ZERO-dof element (zero-length VectorXd / empty inner vector)
+# in first, middle and last position (shape codes >= 1000 make the harness build them; the spec derives the tag)
+ZERO_DOF_MODELS = (13, 16, 30, 31, 32)
+ZERO_SHAPES = [1003, 2004, 3002]
 # extra shapes in the thorough tier: nested containers get more structural variety (the code's first choice is
 # shape mod n, nested choices are hashed from the whole code)
 EXTRA_SHAPES = {13: 15, 15: 25, 16: 25, 17: 15, 19: 12, 9: 0, 30: 20, 31: 10, 32: 10}
@@ -70,7 +74,7 @@ ASSUME = [
 
 _LOCK = threading.Lock()
 NOTE = ("-noGenerateSpecTE",)
-PROCS = min(V.NCPU, int(os.environ.get("VERIF_C07_PROCS", "8")))      # parallel TLC trace processes
+PROCS = min(V.NCPU, int(os.environ.get("VERIF_C07_PROCS", "6")))      # parallel TLC trace processes
 
 
 def active_models():
@@ -195,11 +199,13 @@ def plan_programs(by_kind, tier, seed):
         name, kind, shapes = MODELS[m]
         rng = random.Random(seed * 7919 + 17 + 1000003 * m)      # per model: independent of the other models
         shapes = list(shapes)
+        if m in ZERO_DOF_MODELS:
+            shapes += ZERO_SHAPES if m != 32 else [1000, 2000, 3000]      # model 32: shape % 2 = 0 selects the vector alternative
         if cfg["extra"] and EXTRA_SHAPES.get(m):
             shapes += [len(shapes) + 5 * k + (k % 5) for k in range(1, EXTRA_SHAPES[m] + 1)]
         per = max(cfg["per_shape"], -(-cfg["per_model"] // len(shapes)))
         ops = [o for o in ALL_OPS if not (kind == "A" and o == "cast")]
-        sweep = [o for o in (SWEEP_OPS if kind in ("S",) else ["rplus", "rt1", "rminus", "dof"]) if o in ops]
+        sweep = [o for o in (SWEEP_OPS if kind in ("S",) else ["rplus", "rt1", "rminus", "dof", "rt2t"]) if o in ops]
         progs, hid = [], 0
         for k, sh in enumerate(shapes):
             # every shape gets the sweep operations; the first shape of a model gets every operation
@@ -332,6 +338,13 @@ def required_cells(oc, plan):
     # exhaustive sweeps, from the shapes the SPEC derived out of the recorded values
     def shapes_seen(name, op):
         return {k.split("|")[2].split("~")[0] for k in keys if k.startswith(f"{name}|{op}|")}
+    for m in ZERO_DOF_MODELS:
+        if m not in plan:
+            continue
+        for op in ("dof", "rplus", "rt1", "rminus", "rt2t"):
+            for pos in "FML":
+                if not any(k.startswith(f"{MODELS[m][0]}|{op}|") and "~z" in k and pos in k.split("|")[2].split("~z")[-1] for k in keys):
+                    missing.append(f"{MODELS[m][0]}|{op}: no zero-dof element in position {pos}")
     for m in RAGGED_MODELS:
         if m not in plan:
             continue
